@@ -77,6 +77,9 @@ static size_t g_nbytes0;
 static int64_t g_last0, g_frame0;
 static int g_running0;
 static uint8_t g_dst_guard;
+static uint8_t* g_dst;        /* the caller's buffer */
+static uint8_t g_dst_first0;  /* its first byte before the call */
+static uint64_t g_hw0;        /* info_out->hardware_frame_id before the call */
 #define CONTRACT_simcam_get_frame(REQ, ENS, ASG, FRE)                                         \
     REQ(camera == &g_cam->camera && !cg.held &&                                               \
         g_cam->im.last_emitted_frame_id <= g_cam->im.frame_id &&                              \
@@ -91,6 +94,11 @@ static uint8_t g_dst_guard;
              (int64_t)info_out->hardware_frame_id == g_cam->im.frame_id &&                    \
                g_cam->im.frame_id > g_last0 &&                                                \
                g_cam->im.last_emitted_frame_id == g_cam->im.frame_id))                        \
+    ENS("[C18.no-frame-after-stop] a frame call that observes the stop delivers nothing: "   \
+        "neither the caller's buffer nor the frame info is written (the frame the streamer "  \
+        "renders for stop's own wake-up trigger is not a frame the user asked for)",          \
+        IMPL(RET == Device_Ok && !g_cam->streamer.is_running,                                 \
+             info_out->hardware_frame_id == g_hw0 && g_dst[0] == g_dst_first0))               \
     ENS("[C17.frame-has-reported-shape] the frame carries the reported shape",               \
         IMPL(RET == Device_Ok && g_cam->streamer.is_running,                                  \
              info_out->shape.dims.width == g_cam->im.shape.dims.width &&                      \
@@ -279,11 +287,16 @@ h_simcam_get_frame(void)
     uint8_t* dst = malloc(img + 1);
     VASSUME(dst != 0);
     dst[img] = 0xA5; /* guard right behind the image bytes */
+    dst[0] = nd_uchar();
+    g_dst = dst;
+    g_dst_first0 = dst[0];
     size_t nb = nd_ulong();
     size_t* nbytes = &nb;
     void* im = dst;
     struct ImageInfo info;
     struct ImageInfo* info_out = &info;
+    info.hardware_frame_id = nd_ulong();
+    g_hw0 = info.hardware_frame_id;
     g_nbytes0 = nb;
     g_last0 = g_cam->im.last_emitted_frame_id;
     g_frame0 = g_cam->im.frame_id;
